@@ -5,15 +5,14 @@ Import ListNotations.
 
 Lemma parse_render_stage5_syn : forall (cpp : bool) (e : expr),
   frag5 e = true -> wf e = true -> labels_ok e = true -> mid_ok e = true -> plainmid e = true ->
-  decl_like (render e) = false ->
   parse cpp (render e) = Some (tree_of e).
 Proof.
-  intros cpp e Hf Hw Hl Hm Hp Hd. apply parse_render_stage5; try assumption. apply prep_plainmid. exact Hp.
+  intros cpp e Hf Hw Hl Hm Hp. apply parse_render_stage5; try assumption. apply prep_plainmid. exact Hp.
 Qed.
 
 Lemma parse_render_canon : forall (cpp : bool) (e0 : expr), let e := canon e0 in
-  frag5 e = true -> wf e = true -> mid_ok e = true -> plainmid e = true -> decl_like (render e) = false ->
+  frag5 e = true -> wf e = true -> mid_ok e = true -> plainmid e = true ->
   parse cpp (render e) = Some (tree_of e).
 Proof.
-  intros cpp e0 e Hf Hw Hm Hp Hd. apply parse_render_stage5_syn; try assumption. apply labels_ok_canon.
+  intros cpp e0 e Hf Hw Hm Hp. apply parse_render_stage5_syn; try assumption. apply labels_ok_canon.
 Qed.
